@@ -328,6 +328,8 @@ class PipeOps(FullOps):
         return v
 
     def length(self, v, node):
+        if isinstance(v, ListV) and v.kind == "counter":
+            return self.length(self.to_set(replace(v, kind="list"), node), node)  # len(Counter): the number of distinct elements
         if isinstance(v, ListV) and v.it is not None:
             from .interp import AbsRaise
 
@@ -335,7 +337,19 @@ class PipeOps(FullOps):
             raise AbsRaise("TypeError", node, self.interp.where(node)[1])
         if isinstance(v, SetV) and v.items is not None and any(isinstance(x, (SetV, ListV, DictV)) for x in v.items):
             # a set of collections (`{frozenset(t.required_keys) for t in ts}`): how many of them are equal is a question about their contents
-            return self.unk("len() of a set of collections", node)
+            reps = []
+            for x in v.items:
+                if not isinstance(x, SetV):
+                    return self.unk("len() of a set of collections", node)
+                for r in reps:
+                    eq = self.sets_equal(x, r)
+                    if eq is None:
+                        return self.unk("len() of a set of collections", node)
+                    if eq:
+                        break
+                else:
+                    reps.append(x)
+            return Const(len(reps))
         if self.strict_atoms:
             if isinstance(v, ListV) and v.items is None and v.order is not None:
                 p = Poly()
@@ -1218,6 +1232,10 @@ class PipeOps(FullOps):
         return super().zip(args, node)
 
     def list_method(self, lst, name, args, kwargs, node, env):
+        if lst.kind == "counter":
+            if name == "total" and not args and not kwargs:
+                return self.length(replace(lst, kind="list"), node)  # Counter.total(): the number of elements counted, duplicates included
+            return self.unk(f"Counter.{name}", node)
         if name == "numel" and lst.kind == "tuple" and lst.items is None:
             src = str(lst.order[0][0])[6:] if lst.order and lst.order[0] else "?"
             return TV(kind="pyint", note="numel", poly=Poly.sym(f"numel[{src}]"))
